@@ -660,7 +660,7 @@ def run(ctx):
                 check_graph(ctx, Network, B, d, cid, r)
                 ctx.count("family_graphs")
     # 3. random graphs ---------------------------------------------------------------------
-    cap = 8000 if ctx.thorough else 320
+    cap = 24000 if ctx.thorough else 320
     k = 0
     while k < cap:
         k += 1
